@@ -76,15 +76,15 @@ def computeRoot (p : Proof) : Option Bytes :=
   if p.index < 0 ∨ p.total ≤ 0 then none
   else fromAunts H p.total.toNat p.index.toNat p.total.toNat p.leafHash p.aunts
 
-/-- `Proof.Verify`. Go compares with `bytes.Equal`, for which a `nil` computed hash equals an
-empty `rootHash`; that corner is kept. -/
+/-- `Proof.Verify` (with the `fix:` commit: a proof that computes no root hash is refused — before
+it, Go's `bytes.Equal` took the `nil` result for an empty `rootHash`). -/
 def verify (rootHash : Bytes) (leaf : Bytes) (p : Proof) : Except VerifyErr Unit :=
   if p.total < 0 then .error .total
   else if p.index < 0 then .error .index
   else if p.leafHash ≠ leafHash H leaf then .error .leaf
   else
     match computeRoot H p with
-    | none => if rootHash = [] then .ok () else .error .root
+    | none => .error .root
     | some h => if h = rootHash then .ok () else .error .root
 
 /-- an explicit hash collision (what a soundness theorem exhibits instead of assuming none) -/
